@@ -15,7 +15,7 @@ def CtzSpec (x n : BitVec 64) : Prop :=
 theorem ctz64_spec (x : BitVec 64) : x ≠ 0#64 → CtzSpec x (ctz64 x) := by
   intro hx
   unfold CtzSpec ctz64
-  bv_decide
+  bv_decide (config := { timeout := 300 })
 
 /-- what "sound" means for one accepted encoding `e` of `v` in a 64-bit operation -/
 def Sound64 (v : BitVec 64) (e : LogicalImm) : Prop :=
@@ -55,7 +55,7 @@ macro_rules
        rename_i hok
        cases h
        simp only [Sound64, Sound32, CtzSpec, halvesEq, lsbMask64v, decodeBitMasksValid, decodeBitMasksValue, expandElem] at *
-       bv_decide))
+       bv_decide (config := { timeout := 300 })))
 
 theorem elem_sound64_64 (v : BitVec 64) (e : LogicalImm)
     (h : encodeLogicalElem v 64#64 = some e) : Sound64 v e := by logical_ssa 64#64
@@ -97,7 +97,7 @@ macro_rules
        split at h
        · rename_i hbad
          simp only [halvesEq, lsbMask64v, decodeBitMasksValid, decodeBitMasksValue, expandElem] at *
-         bv_decide
+         bv_decide (config := { timeout := 300 })
        rename_i hne
        have c1 := ctz64_spec (~~~imm)
        generalize hzi : ctz64 (~~~imm) = zi at h c1
@@ -113,7 +113,7 @@ macro_rules
        split at h
        · rename_i hbad
          simp only [CtzSpec, halvesEq, lsbMask64v, decodeBitMasksValid, decodeBitMasksValue, expandElem] at *
-         bv_decide
+         bv_decide (config := { timeout := 300 })
        · cases h))
 
 /-- `v` is an architecturally valid 64-bit logical immediate -/
